@@ -2017,15 +2017,50 @@ impl<'a> CompileState<'a> {
                     identifier, fields, ..
                 } = struct_ast.as_ref();
 
+                // The literal must match the definition like a struct
+                // literal in a function body does.
+                let mut value_fields = BTreeMap::new();
+                for (field_name, expr) in fields {
+                    let def_field = struct_def
+                        .iter()
+                        .find(|f| f.identifier.inner == field_name.inner)
+                        .ok_or_else(|| {
+                            let note = format!(
+                                "field `{}` not found in `Struct {}`",
+                                field_name.inner, identifier
+                            );
+                            self.err(NotDefined(note, field_name.span))
+                        })?;
+                    let value = self.expression_value(expr)?;
+                    let vt = value.vtype(expr.span);
+                    if !vt.fits_type(&def_field.field_type) {
+                        let err = InvalidType::new(
+                            def_field.field_type.to_string(),
+                            Some(def_field.span()),
+                            vt.to_string(),
+                            expr.span,
+                        );
+                        return Err(self.err(err));
+                    }
+                    if value_fields.insert(field_name.inner.clone(), value).is_some() {
+                        let err = AlreadyDefined::new(field_name.clone(), field_name.clone());
+                        return Err(self.err(err));
+                    }
+                }
+                if let Some(missing) = struct_def
+                    .iter()
+                    .find(|def| !value_fields.contains_key(&def.identifier.inner))
+                {
+                    let note = format!(
+                        "field `{}` of `Struct {}` is missing",
+                        missing.identifier.inner, identifier
+                    );
+                    return Err(self.err(BadArgument(note, e.span)));
+                }
+
                 Ok(ConstValue::Struct(ConstStruct {
                     name: identifier.inner.clone(),
-                    fields: {
-                        let mut value_fields = BTreeMap::new();
-                        for (value, expr) in fields {
-                            value_fields.insert(value.inner.clone(), self.expression_value(expr)?);
-                        }
-                        value_fields
-                    },
+                    fields: value_fields,
                 }))
             }
             ExprKind::EnumReference(e) => {
